@@ -426,6 +426,9 @@ func (c Call) Coq() string {
 type Event struct {
 	Call Call `json:"call"`
 	Resp Resp `json:"resp"`
+	// exec callbacks: monotonic clock (ns since the scenario began) at entry and just before return
+	T0 int64 `json:"t0,omitempty"`
+	T1 int64 `json:"t1,omitempty"`
 }
 
 func (e Event) Coq() string {
